@@ -210,7 +210,16 @@ pub fn run_xml_parse_with<S: TreeSink>(
 }
 
 pub fn run_xml_parse(chunks: &[String], opts: &XmlOpts, gc: bool, record_states: bool) -> XParseRun<MSink> {
+    run_xml_parse_scripted(chunks, opts, gc, record_states, None)
+}
+
+pub fn run_xml_parse_scripted(chunks: &[String], opts: &XmlOpts, gc: bool, record_states: bool, script_seed: Option<u64>) -> XParseRun<MSink> {
+    let mut n = 0u64;
     let mut f = |tok: &XmlTok<MSink>| -> u64 {
+        n += 1;
+        if let Some(ss) = script_seed {
+            tok.sink.sink.run_script(crate::prng::mix(ss, n));
+        }
         if !gc {
             return 0;
         }
